@@ -20,7 +20,7 @@ def flip(b, i):
 def run(R):
     thorough = R.tier == "thorough"
     R.model_check("AeadCtx", "MC_AeadCtx.cfg", need_actions=["AddData", "ToEnc", "ToDec", "Enc", "Dec", "Finalize"], workers=4)
-    bases = [(20, 32, 12, 40), (20, 16, 0, 17), (20, 32, 17, 0), (12, 32, 5, 64)] + ([(8, 16, 33, 100), (20, 32, 16, 16)] if thorough else [])
+    bases = [(20, 32, 12, 40), (20, 16, 0, 17), (20, 32, 17, 0), (12, 32, 5, 64)] + ([(8, 16, 33, 100), (20, 32, 16, 16), (20, 16, 1, 1), (12, 16, 64, 64), (20, 32, 15, 257), (8, 32, 129, 31), (20, 32, 0, 0), (20, 16, 300, 5)] if thorough else [])
     enc = []
     meta = {}
     for (rounds, kl, a, p) in bases:
@@ -55,11 +55,24 @@ def run(R):
             add(rounds, key, nonce, aad, ct, t2, "tagxor%d/%d-%d" % (bi, i, j))
             t3 = list(tag); t3[i] = (t3[i] + 1) % 256; t3[j] = (t3[j] - 1) % 256
             add(rounds, key, nonce, aad, ct, t3, "tagsum%d/%d-%d" % (bi, i, j))
+        # a comparison that folds the tag in words (xor / add of the per-word differences) is blind to a difference repeated in every word:
+        # the same delta in both 8-byte halves, in all four 4-byte words, in all eight 2-byte words, in every byte; halves / words swapped
+        for w in (8, 4, 2, 1):
+            for k in range(2 if bi else 3):
+                delta = [R.rng.randrange(1, 256) if (k or q == w - 1) else 0 for q in range(w)] if k < 2 else [0] * (w - 1) + [1 << R.rng.randrange(8)]
+                t5 = [tag[q] ^ delta[q % w] for q in range(16)]
+                add(rounds, key, nonce, aad, ct, t5, "tagrep%d/w%d/%d" % (bi, w, k))
+        for w in (8, 4):
+            t6 = [b for q in reversed(range(16 // w)) for b in tag[q * w:(q + 1) * w]]
+            add(rounds, key, nonce, aad, ct, t6, "tagwordswap%d/w%d" % (bi, w))
+        if bi == 0:
+            for i in range(64):         # bit i together with bit i + 64
+                add(rounds, key, nonce, aad, ct, flip(flip(tag, i), i + 64), "tagbitpair%d/%d" % (bi, i))
         t4 = list(tag); t4[0], t4[15] = t4[15], t4[0]
         add(rounds, key, nonce, aad, ct, t4, "tagswap%d" % bi)
         add(rounds, key, nonce, aad, ct, [0] * 16, "tagzero%d" % bi)
         add(rounds, key, nonce, aad, ct, tag[1:] + tag[:1], "tagrot%d" % bi)
-        ns = 8 if thorough else 3
+        ns = 40 if thorough else 3
         for i in (R.rng.sample(range(8 * len(ct)), min(ns, 8 * len(ct))) if ct else []):
             add(rounds, key, nonce, aad, flip(ct, i), tag, "ctbit%d/%d" % (bi, i))
         for i in (R.rng.sample(range(8 * len(aad)), min(ns, 8 * len(aad))) if aad else []):
